@@ -233,7 +233,7 @@ inline void do_store(int id, uint64_t v, std::memory_order o)
     // every store is by the writer of the previous message or happens-after it (no two concurrent writers)
     Msg const& last = L.mo.back();
     if (last.tid != W->cur && !last.clk.leq(T.clk))
-      fail("harness-assumption-broken", "two unordered writers on one location: the history-based state key is unsound");
+      fail("harness-assumption-broken", "two writers of one atomic location are not ordered by happens-before (a node is used without synchronising with its construction / publication)");
     L.writer_after_init = W->cur;
   }
   T.clk.c[W->cur]++;
